@@ -1,6 +1,93 @@
-import HranoModel.Model.Options
-import HranoModel.Model.Sink
-import HranoModel.Model.Chan
-/-! C03 property theorems (statements only in this file; helper lemmas live in Lemmas/) -/
+import HranoModel.Lemmas.Tree
+import HranoModel.Props.C07
+/-!
+C03 — the balance tree conserves logged quantities in every display mode.
+
+Property theorems only (helper lemmas: `Lemmas/Tree.lean`).  The tree is `Tree.build` (`AddDeep` for every
+element processed; children kept sorted = `Keys()`), the printers are `printChildren` (plain and
+`--collapse-last`) and `printCollapsedChildren` (`--collapse`, after the fix recorded in
+known-findings.txt).  Vocabulary (`Spec/Balance.lean`): `totalAt` the amount at a category path,
+`prefixSum` the sum of the logged quantities at or below a path, `preorderList` the rows in pre-order,
+`chainNames / chainEnd` the chain of sole children a collapsed row joins.
+
+Stated but not yet proved (checked by the C03 check exhaustively over small path sets and randomly beyond):
+`NoPrefix log → leaves (collapsed output) = leaves (plain output)` as a statement about parsed output text.
+The theorems below give its ingredients on the tree itself: what a collapsed row is and that printing
+continues below the end of the chain.
+-/
 namespace Hrano.C03
+open Hrano Hrano.Spec Hrano.Tree Hrano.Report
+
+/-- the generated category separator is one byte (`"/"`) -/
+theorem separator_is_one_byte : Facts.categorySeparator.length = 1 := by decide
+
+/-- **Every category path carries the sum of the quantities logged at or below it**, and siblings are strictly
+    sorted by name at every level (so each path occurs once). -/
+theorem balance_amounts (es : Elements) :
+    WFList (Tree.build es) ∧ ∀ q, totalAt (Tree.build es) q = prefixSum Tree.sep q es := by
+  have := build_spec es [] WFList.nil
+  refine ⟨this.1, fun q => ?_⟩
+  rw [Tree.build, this.2 q, totalAt_nil, Rat.zero_add]
+
+/-- **The plain balance prints the tree in pre-order**: one row per node, parents before children, siblings in
+    the tree's (sorted) order, each with its indent, label and amount. -/
+theorem balance_rows (level : Nat) (cs : List Tree) :
+    printChildren false level cs = ((preorderList level cs).map rowOf).flatten :=
+  printList_is_preorder level cs
+
+/-- `--collapse` only joins path segments: the row of a chain of sole children is labelled with the `/`-join of
+    the chain's names, carries the amount of the chain's head, and printing continues below the chain's end —
+    no branch is dropped. -/
+theorem collapse_only_joins (level : Nat) (c : Tree) :
+    printCollapsedChild [] c.total level c
+      = row c.total level (Bytes.join Tree.sep (chainNames c)) ++ printCollapsedChildren (level + 1) (chainEnd c).children := by
+  simpa using collapsed_child level c [] c.total
+
+/-- `--collapse-last` joins a node with its only child when that child is a leaf, and keeps the node's amount -/
+theorem collapse_last_joins (level : Nat) (n gn : Bytes) (t gt : Q) :
+    printChild true level (node n t [node gn gt []]) = row t level (n ++ Tree.sep :: gn) := by
+  simp [printChild]
+
+/-- the top-level amounts are the same in every display mode (what the C03/C15 checks observe as conservation) -/
+theorem top_level_amounts_conserved (cs : List Tree) :
+    (∀ c ∈ cs, ∃ rest, printChild false 0 c = row c.total 0 c.name ++ rest)
+    ∧ (∀ c ∈ cs, ∃ label rest, printCollapsedChild [] c.total 0 c = row c.total 0 label ++ rest)
+    ∧ (∀ c ∈ cs, ∃ label rest, printChild true 0 c = row c.total 0 label ++ rest) := by
+  refine ⟨?_, ?_, ?_⟩
+  · intro c _
+    cases c with
+    | node n t ch => exact ⟨_, printChild_plain 0 n t ch⟩
+  · intro c _
+    exact ⟨_, _, collapse_only_joins 0 c⟩
+  · intro c _
+    cases c with
+    | node n t ch =>
+      cases ch with
+      | nil => exact ⟨n, [], by simp [printChild, Tree.total]⟩
+      | cons g gs =>
+        cases gs with
+        | nil =>
+          cases g with
+          | node gn gt gch =>
+            cases gch with
+            | nil => exact ⟨n ++ Tree.sep :: gn, [], by simp [printChild, Tree.total]⟩
+            | cons x xs => exact ⟨n, printChildren true 1 [node gn gt (x :: xs)], by simp [printChild, Tree.total]⟩
+        | cons g2 gs2 => exact ⟨n, printChildren true 1 (g :: g2 :: gs2), by simp [printChild, Tree.total]⟩
+
+/-- single-element mode: the tree is built from `quantity × the food's amount of the element` (a directly logged
+    element counting as itself), and the grand total printed under the tree is the sum of those contributions —
+    which is the period total of the element (C07) -/
+theorem single_element_total (db : Book) (x : Bytes) (days : List LogDay) :
+    (balanceSingleElements db x days).foldl (fun s e => s + e.value) 0
+      = Accumulator.posAt (C12.totalsAcc db days) x + Accumulator.negAt (C12.totalsAcc db days) x :=
+  C07.bal_single_total_eq_period_total db x days
+
+/-! non-vacuity: a chain that forks at depth 2 plus a directly logged category -/
+def demo : Elements := [⟨[97, 47, 98, 47, 99], 1⟩, ⟨[97, 47, 98, 47, 100], 2⟩, ⟨[120], 4⟩, ⟨[97, 47, 98, 47, 99], 8⟩]
+example : totalAt (Tree.build demo) [[97], [98]] = 11 ∧ totalAt (Tree.build demo) [[97], [98], [99]] = 9
+    ∧ totalAt (Tree.build demo) [[120]] = 4 := by decide +kernel
+example : (preorderList 0 (Tree.build demo)).map (fun r => (r.1, r.2.1))
+    = [(0, [97]), (1, [98]), (2, [99]), (2, [100]), (0, [120])] := by decide +kernel
+example : chainNames (node [97] 11 [node [98] 11 [node [99] 9 [], node [100] 2 []]]) = [[97], [98]] := by decide
+
 end Hrano.C03
